@@ -7,6 +7,7 @@ WT=/tmp/mutwt/covermine
 git -C /repo worktree remove --force $WT 2>/dev/null || true
 git -C /repo worktree add -q --detach $WT HEAD
 trap 'git -C /repo worktree remove --force $WT; rm -rf /tmp/covermine-build' EXIT
+if [ -n "$PATCH" ]; then git -C $WT apply "$PATCH"; fi   # PATCH=<diff>: mine on a deliberately broken build (see README in main.go)
 k=0; exp=""
 for f in path_intersection.go; do
   go tool cover -mode=count -var=GoCover_$k -o $WT/$f.tmp $WT/$f && mv $WT/$f.tmp $WT/$f
